@@ -29,15 +29,16 @@ def _configs(thorough):
                                       cls='Cls_Two'),
                 'c17_layers': rc.consts(maps=2, handles=2, layers=2, gen=1, ops=OPS_LAYERS, builders=['m0'], phased=True,
                                         cls='Cls_Two'),
-                'c17_resnap': rc.consts(maps=3, handles=2, layers=2, gen=1, ops='{"set", "clear", "push", "snap", "sget"}',
-                                        receivers=['m0'], resnap=True)}
+                'c17_resnap': rc.consts(maps=2, handles=2, layers=1, gen=1, ops=OPS_RESNAP, receivers=['m0'], resnap=True),
+                'c17_resnap_layers': rc.consts(maps=3, handles=2, layers=2, gen=1, receivers=['m0'], resnap=True,
+                                               ops='{"set", "clear", "push", "snap", "sget"}')}
     # every lexical class of names (slots / __dict__ / mangling), flat and nested; then layered handles; then
     # snapshot - change the root or a sub-map directly - snapshot again
     return {'c17_names': rc.consts(maps=2, handles=2, layers=1, gen=1, ops=OPS_NAMES, builders=['m0'], phased=True,
                                    cls='Cls_Mix'),
             'c17_layers': rc.consts(maps=2, handles=2, layers=2, gen=1, ops=OPS_LAYERS, builders=['m0'], receivers=['m0'],
                                     phased=True, cls='Cls_Plain'),
-            'c17_resnap': rc.consts(maps=3, handles=2, layers=1, gen=1, ops=OPS_RESNAP, receivers=['m0'], resnap=True)}
+            'c17_resnap': rc.consts(maps=2, handles=2, layers=1, gen=1, ops=OPS_RESNAP, receivers=['m0'], resnap=True)}
 
 
 def run(res):
@@ -48,12 +49,15 @@ def run(res):
                                  rc.consts(maps=2, handles=2, layers=1, gen=1, ops=OPS_NAMES, builders=['m0'], phased=True,
                                            cls='Cls_Private', StaticSlotsUnmangled=False),
                                  INV, PROP, ('SnapshotSucceeds',))])
-    for name, (c, ov) in _configs(thorough).items():
-        rc.check_and_replay(res, name, c, ov, INV, PROP, own=FACETS_STATIC, probe=False, depth_all=3,
-                            walks=3000 if thorough else 1000, walk_len=30, shifts=(0,), before_replay=join)
+    cfgs = _configs(thorough)
+    pre = rc.dumps_in_parallel(res, cfgs, INV, PROP)
+    join()
+    for name, (c, ov) in cfgs.items():
+        rc.check_and_replay(res, name, c, ov, INV, PROP, own=FACETS_STATIC, probe=False,
+                            depth_all=4 if name == 'c17_resnap' else 3,     # snapshot - change below - snapshot again
+                            walks=3000 if thorough else 1000, walk_len=30, shifts=(0,), pre=pre[name])
         if res.violations:
             break
-    join()
 
 
 def replay(res, path):
